@@ -29,6 +29,10 @@ def probe_file(offset: int, types: List[Base], name: str) -> Tuple[File, List[Tu
         tag = type_tag(t)
         al = f.add(Alias(f"Al{tag}", Base(t.kind, t.width)))
         aa = f.add(Alias(f"Arr{tag}", Arr(Base(t.kind, t.width), 3)))
+        # 2-D: rows whose total size is exactly 8/16/32/64 bits when the width allows it (they look like one standard
+        # integer to anything keyed on the element's bit size), else 3 elements
+        rcap = next((tot // t.width for tot in (8, 16, 32, 64) if tot % t.width == 0 and tot // t.width >= 2), 3)
+        row = f.add(Alias(f"Row{tag}", Arr(Base(t.kind, t.width), rcap)))
         m = Message(f"Probe{tag}")
         if offset:
             m.add(Field("pad", Base("uint", offset), 1))
@@ -39,7 +43,8 @@ def probe_file(offset: int, types: List[Base], name: str) -> Tuple[File, List[Tu
         m.add(Field("a5", Arr(Base(t.kind, t.width), 5), 6))
         m.add(Field("al", Ref(al), 7))
         m.add(Field("aa", Ref(aa), 8))
-        m.add(Field("tail", Base("bool"), 9))
+        m.add(Field("rows", Arr(Ref(row), 2), 10))
+        m.add(Field("tail", Base("bool"), 11))
         f.add(m)
         out.append((m, t))
     return f, out
@@ -77,15 +82,15 @@ def probe_values(m: Message, t: Base, full: bool) -> List[Tuple[str, Any]]:
     pad = next((it for it in items if it.path == (1,)), None)
     if pad is not None:
         zero = ref.set_leaf(m, zero, pad.path, (1 << pad.width) - 1)
-    probed = [it for it in items if it.path[0] in (2, 3, 4, 5, 6, 7, 8)]
+    probed = [it for it in items if it.path[0] in (2, 3, 4, 5, 6, 7, 8, 10)]
     out: List[Tuple[str, Any]] = []
     for b in basis(t, full):
         allv = zero
         for it in probed:
             allv = ref.set_leaf(m, allv, it.path, b)
-        allv = ref.set_leaf(m, allv, (9,), 1)
+        allv = ref.set_leaf(m, allv, (11,), 1)
         out.append((f"all={b}", allv))
-    pos_sample = probed if full else [it for it in probed if it.path in ((2,), (3, 0), (4, 1), (6, 4), (7,), (8, 2))]
+    pos_sample = probed if full else [it for it in probed if it.path in ((2,), (3, 0), (4, 1), (6, 4), (7,), (8, 2), (10, 0, 1), (10, 1, 0))]
     for it in pos_sample:
         for b in basis(t, full):
             if b == 0:
@@ -95,4 +100,4 @@ def probe_values(m: Message, t: Base, full: bool) -> List[Tuple[str, Any]]:
 
 
 def position_of(path: Tuple) -> str:
-    return {2: "scalar", 3: "array", 4: "array", 5: "array", 6: "array", 7: "alias", 8: "alias-of-array"}.get(path[0], "other")
+    return {2: "scalar", 3: "array", 4: "array", 5: "array", 6: "array", 7: "alias", 8: "alias-of-array", 10: "array-of-alias-of-array"}.get(path[0], "other")
